@@ -285,7 +285,7 @@ def _scan_tokens(rows_tok):
     return [[] if r == "-" else [int(x) for x in r.split(",")] for r in rows_tok.split(";")]
 
 
-_WALLET_CTX_OPS = {"scan.posE", "w.bip32", "w.bip32.pos", "w.key", "w.script", "w.script.pos", "w.desc.pos"}
+_WALLET_CTX_OPS = {"addr", "scan.posE", "w.bip32", "w.bip32.pos", "w.key", "w.script", "w.script.pos", "w.desc.pos"}
 _SCAN_CTX: dict = {}   # op line -> precomputed implementation answer (scan ops are answered from real objects)
 
 
@@ -999,6 +999,8 @@ def _build_wallet(w):
         return BIP32KeyWallet(w["xkey"], w["path"], w.get("script_type"))
     if kind == "desc":
         return DescriptorWallet.from_descriptor(w["text"], w["network"], dict(w.get("prv") or {}) or None)
+    if kind == "key":
+        return KeyWallet([bytes.fromhex(k) for k in w.get("keys", [])], w["script_type"], w["network"])
     if kind == "descs":
         return DescriptorWallet([D.parse(t_, w["network"]) for t_ in w["texts"]], dict(w.get("prv") or {}) or None)
     if kind == "account":
@@ -1099,6 +1101,150 @@ def _o_wallet_raise(w):
     return True, "answered before / refused at the underivable position"
 
 
+def _addr_network_ok(addr: str, script: bytes, network: str):
+    """decode the address by hand: it names `script`, and its prefix (base58 version byte / bech32 hrp) is the
+    one the wallet's network writes."""
+    n = NETWORKS[network]
+    if b32.is_segwit_prefixed(addr):
+        hrp = addr.lower().rpartition("1")[0]
+        ver, prog, _ = b32.witness_from_address(addr)
+        want = serialize([f"OP_{ver}", prog])
+        return hrp == n.hrp and want == script, f"hrp {hrp!r} (network {n.hrp!r})"
+    raw = b58.b58decode(addr, 21)
+    ver, h = raw[:1], raw[1:]
+    if ver == n.p2pkh:
+        want = serialize(["OP_DUP", "OP_HASH160", h, "OP_EQUALVERIFY", "OP_CHECKSIG"])
+    elif ver == n.p2sh:
+        want = serialize(["OP_HASH160", h, "OP_EQUAL"])
+    else:
+        return False, f"version byte 0x{ver.hex()} is not {network}'s (p2pkh 0x{n.p2pkh.hex()}, p2sh 0x{n.p2sh.hex()})"
+    return want == script, f"version 0x{ver.hex()}"
+
+
+def _o_wallet_address(w):
+    """every address a wallet hands out decodes, by hand, to the wallet's own script_pub_key at that position and
+    carries the prefix of the wallet's own network."""
+    wal = _build_wallet(w)
+    for b, i in w["ask"]:
+        try:
+            s = wal.script_pub_key(b, i).script
+            addr = wal.address(b, i)
+        except BTClibValueError:
+            continue
+        ok, why = _addr_network_ok(addr, s, wal.network)
+        if not ok:
+            return False, f"{w['kind']} wallet on {wal.network}: address({b},{i}) = {addr}: {why}, script {s.hex()}"
+        if wal.script_pub_key(b, i).network != wal.network and NETWORKS[wal.script_pub_key(b, i).network] != NETWORKS[wal.network]:
+            return False, f"script_pub_key({b},{i}).network is {wal.script_pub_key(b, i).network}, wallet is {wal.network}"
+    return True, "addresses name the wallet's scripts on the wallet's network"
+
+
+def _o_wallet_ops(w):
+    """a wallet is a function of its source: whatever is done later (add a loose key of another type, hand out more
+    addresses, ask positions), every script handed out before is still derived at its position, byte for byte, is
+    still recognised there, keeps its address and its ledger entry; next_address continues one past the highest
+    index asked for."""
+    wal = _build_wallet(w)
+    last = w["last"]
+    handed = {}      # (b, i) -> (script, address or None)
+    nxt = {}
+    added = {}       # address of a loose key -> the script type it was added under
+
+    def note(b, i, addr=None):
+        s = wal.script_pub_key(b, i).script
+        if (b, i) in handed:
+            if handed[(b, i)][0] != s:
+                return f"script_pub_key({b},{i}) changed from {handed[(b, i)][0].hex()} to {s.hex()}"
+            addr = addr or handed[(b, i)][1]
+        handed[(b, i)] = (s, addr)
+        return None
+
+    def verify(after):
+        last = max([w["last"]] + [i_ for (_, i_) in handed])      # next_address may walk past the asked range
+        for a_, t_ in added.items():
+            if a_ not in wal or wal.address_info(a_).script_type != t_:
+                return f"after {after}: the loose key's address {a_} is no longer recorded as {t_}"
+        for (b, i), (s, addr) in handed.items():
+            now = wal.script_pub_key(b, i).script
+            if now != s:
+                return f"after {after}: script_pub_key({b},{i}) was {s.hex()}, is {now.hex()}"
+            got = wal.position_of(s, last)
+            if got != (b, i):
+                return f"after {after}: position_of(script handed out at {b}/{i}) = {got}"
+            if addr is not None:
+                if addr not in wal or wal.position_of(addr, last) != (b, i):
+                    return f"after {after}: address {addr} of {b}/{i} is no longer recognised"
+                inf = wal.address_info(addr)
+                if (inf.branch, inf.index, inf.address) != (b, i, addr):
+                    return f"after {after}: ledger entry of {addr} is {inf}"
+                ok, why = _addr_network_ok(addr, s, wal.network)
+                if not ok:
+                    return f"after {after}: {addr} does not name {s.hex()} on {wal.network}: {why}"
+        return None
+    for op in w["ops"]:
+        try:
+            if op[0] == "spk":
+                err = note(op[1], op[2])
+            elif op[0] == "addr":
+                a = wal.address(op[1], op[2])
+                nxt[op[1]] = max(nxt.get(op[1], 0), op[2] + 1)
+                err = note(op[1], op[2], a)
+                if not err and wal.address(op[1], op[2]) != a:
+                    err = f"address({op[1]},{op[2]}) is not idempotent"
+            elif op[0] == "next":
+                i = nxt.get(op[1], 0)
+                a = wal.next_address(op[1])
+                nxt[op[1]] = i + 1
+                err = note(op[1], i, a)
+                if not err and wal.address_info(a).index != i:
+                    err = f"next_address({op[1]}) handed out index {wal.address_info(a).index}, expected {i}"
+            elif op[0] == "pos":
+                s = wal.script_pub_key(op[1], op[2]).script
+                got = wal.position_of(s, last)
+                err = None if got == (op[1], op[2]) else f"position_of(script_pub_key({op[1]},{op[2]})) = {got}"
+            elif op[0] == "add":
+                before = wal.script_type
+                a = wal.add(bytes.fromhex(op[1]), op[2])
+                err = None
+                if wal.script_type != before:
+                    err = f"add(key, {op[2]!r}) changed the wallet's script_type from {before!r} to {wal.script_type!r}"
+                elif wal.address_info(a).script_type != (op[2] or before):
+                    err = f"the added key is recorded as {wal.address_info(a).script_type}"
+                else:
+                    added[a] = op[2] or before
+                    k_ = KeySpec("hex", op[1], sec=bytes.fromhex(op[1]))
+                    spec_ = {"p2pkh": ("pkh", k_), "p2wpkh-p2sh": ("sh", ("wpkh", k_)), "p2wpkh": ("wpkh", k_),
+                             "p2tr": ("tr", k_, None)}[op[2] or before]
+                    ok_, why_ = _addr_network_ok(a, hand_scripts(spec_, 0, wal.network)[0], wal.network)
+                    if not ok_:
+                        err = f"add(key, {op[2]!r}) handed out {a}: {why_}"
+            else:
+                err = f"unknown op {op}"
+        except BTClibValueError as e:
+            err = None if op[0] in ("spk", "addr", "pos") and op[2] > last else f"{op} raised {e}"
+        err = err or verify(op)
+        if err:
+            return False, f"{w['kind']} wallet, ops {w['ops']}: {err}"
+    return True, f"{len(w['ops'])} operations, {len(handed)} positions handed out"
+
+
+def _o_checksum_ref(w):
+    """btclib's checksum is the BIP380 reference's (verbatim copy above), and what it appends the reference's
+    descsum_check accepts."""
+    t = w["text"]
+    want = descsum_create(t)
+    try:
+        got = D.checksum(t)
+    except BTClibValueError:
+        return want is None, "refused"
+    if want is None or got != want[-8:]:
+        return False, f"checksum({t!r}) = {got}, BIP380 reference says {None if want is None else want[-8:]}"
+    full = D.add_checksum(t) if "#" not in t else None
+    if full is not None and not descsum_check(full):
+        return False, f"add_checksum({t!r}) = {full!r} fails the reference descsum_check"
+    return True, "equal"
+
+
 def _o_wallet_agree(w):
     """the BIP32 key wallet and the descriptor wallet of the same account hand out the same scripts and addresses,
     and those are the hand-derived key's own encoding."""
@@ -1152,7 +1298,8 @@ def _o_brackets(w):
 
 ORACLES = {
     "derive": _o_derive, "corrupt": _o_corrupt, "roundtrip": _o_roundtrip, "atindex": _o_atindex,
-    "multipath": _o_multipath, "index_of": _o_index_of, "wallet": _o_wallet, "wallet.agree": _o_wallet_agree, "wallet.raise": _o_wallet_raise,
+    "multipath": _o_multipath, "index_of": _o_index_of, "wallet": _o_wallet, "wallet.agree": _o_wallet_agree, "wallet.raise": _o_wallet_raise, "wallet.address": _o_wallet_address,
+    "wallet.ops": _o_wallet_ops, "checksum.reference": _o_checksum_ref,
     "opaque.roundtrip": _o_opaque_roundtrip, "brackets": _o_brackets, "int_digits": _o_int_digits,
 }
 
@@ -1221,6 +1368,34 @@ def checksum_batch(ctx):
         lines.append("add " + T(full))
         lines.append("add " + T(full[:-1] + rng.choice(D.CHECKSUM_CHARSET)))
     stream(ctx, "strip_add", lines)
+
+
+def checksum_reference_batch(ctx, texts):
+    """btclib's checksum against the verbatim BIP380 reference on every length class mod 3 x charset group of the
+    last characters (the tail-group rule of the expansion is where a slip hides)."""
+    rng = ctx.rng
+    groups = [IC[0:32], IC[32:64], IC[64:]]
+    cases = [t.partition("#")[0] for t in texts]
+    for r in range(3):
+        for g1 in range(3):
+            for g2 in range(3):
+                for _ in range(ctx.n(2, 12)):
+                    n = 3 * rng.randint(1, 30) + r
+                    body = "".join(rng.choice(IC.replace("#", "")) for _ in range(max(n - 3, 0)))
+                    t = (body + rng.choice(groups[g1]) + rng.choice(groups[g2]) + ")")[-n:] if n >= 3 else \
+                        (rng.choice(groups[g1]) + rng.choice(groups[g2]))[:n]
+                    cases.append(t.replace("#", "q"))
+    g = Gen(rng, "mainnet")
+    for _ in range(ctx.n(6, 40)):   # pkh(xpub…): length 2 mod 3 happens with a last key character of any group
+        k = g.xkey(allow_hardened=False, canonical=True, ranged=False)
+        for f in ("pkh", "wpkh", "tr", "pk"):
+            cases.append(f"{f}({k.xpub})")
+            cases.append(f"{f}({k.text})")
+    for t in cases:
+        if t and len(t) >= 2:
+            cls = f"len%3={len(t) % 3},groups={IC.find(t[-2]) >> 5 if t[-2] in IC else 'x'}{IC.find(t[-1]) >> 5 if t[-1] in IC else 'x'}"
+            ctx.count("checksum.reference", cls)
+        ctx.check("checksum.reference", {"text": t}, key="checksum.reference")
 
 
 def split_batch(ctx, texts):
@@ -1415,6 +1590,7 @@ def run(ctx):  # noqa: PLR0912, PLR0915
                 lines.append(f"key {atoms_for(m)} {x} {c} {mu} {T(m)}")
     stream(ctx, "key", lines)
     split_batch(ctx, texts)
+    checksum_reference_batch(ctx, texts)
 
     # ---- bracket kinds (grammar strictness without a checksum to hide behind)
     nb = 0
@@ -1563,6 +1739,114 @@ def _multipath_case(ctx, g, net):
         scripts.append([(i, _expected(s, i, net)) for i in ([0, 1, H - 1] if _ranged(s) else [0])])
     ctx.check("multipath", {"text": text, "network": net, "expect": [whole(j) for j in range(n_alt)],
                             "scripts": scripts})
+
+
+TYPES4 = ["p2pkh", "p2wpkh-p2sh", "p2wpkh", "p2tr"]
+
+
+def _ops_for(rng, last, adds):
+    """a random interleaving of address / script_pub_key / next_address / position_of on both chains, with the
+    loose-key adds spread through it."""
+    ops = []
+    for _ in range(rng.choice([6, 9])):
+        b, i = rng.choice([0, 1]), rng.randint(0, last)
+        ops.append(rng.choice([("addr", b, i), ("spk", b, i), ("next", b), ("pos", b, i), ("next", b)]))
+    for a in adds:
+        ops.insert(rng.randint(1, len(ops)), a)
+    return ops + [("pos", 0, 0), ("next", 0), ("next", 1)]
+
+
+def wallet_ops_batch(ctx, wlines):
+    """op sequences on the four wallet kinds; and every wallet kind x template x network: the addresses."""
+    rng = ctx.rng
+    for net in NETS:
+        g = Gen(rng, net)
+        coin = 0 if net == "mainnet" else 1
+        loose = [g.fixed_key(xonly_ok=False, uncompressed_ok=False, canonical=True).sec.hex() for _ in range(3)]
+        for t1 in TYPES4:
+            xprv, _ = rng.choice(g.roots)
+            purpose = {"p2pkh": 44, "p2wpkh-p2sh": 49, "p2wpkh": 84, "p2tr": 86}[t1]
+            path = f"m/{purpose}h/{coin}h/{rng.randrange(3)}h"
+            acct = bip32.derive(xprv, path)
+            xkey = rng.choice([acct, bip32.xpub_from_xprv(acct)])
+            last = rng.choice([2, 4])
+            for t2 in TYPES4:        # every (wallet type, added key type) pair
+                if net != "mainnet" and rng.random() < 0.6 and ctx.tier != "thorough":
+                    continue
+                adds = [("add", loose[0], t2), ("add", loose[1], None)]
+                w = {"kind": "bip32", "xkey": xkey, "path": path, "script_type": t1, "last": last,
+                     "ops": _ops_for(rng, last, adds)}
+                ctx.check("wallet.ops", w, key="wallet.ops.bip32")
+                ctx.count("wallet.ops", f"bip32:{t1}+{t2}")
+                # the same through the model: the wallet AFTER the adds still derives what its source says
+                wal = _build_wallet(w)
+                xt = T(wal._xkey.b58encode())
+                for a in adds:
+                    wal.add(bytes.fromhex(a[1]), a[2])
+                for b, i in [(0, 0), (1, last)]:
+                    _ctx_line(wlines, f"w.bip32 {t1} {xt} {b} {i}", lambda b=b, i=i: wal.script_pub_key(b, i).script)
+                    q = _SCAN_CTX[wlines[-1]]
+                    if q.startswith("ok "):
+                        sc = bytes.fromhex(q[3:])
+                        # the wallet's network is the extended key's own (a tpub says testnet, whatever chain it is used on)
+                        _ctx_line(wlines, f"addr {wal.network} {hx(sc)}", lambda b=b, i=i: [T(wal.address(b, i))])
+                        _ctx_line(wlines, f"w.bip32.pos {t1} {xt} {last} {hx(sc)}", lambda sc=sc: wal.position_of(sc, last))
+            # loose-key wallets: every pair again
+            for t2 in TYPES4:
+                w = {"kind": "key", "script_type": t1, "network": net, "keys": [loose[2]], "last": 0,
+                     "ops": [("add", loose[0], t2), ("add", loose[1], None), ("add", loose[0], t1)]}
+                ctx.check("wallet.ops", w, key="wallet.ops.key")
+                ctx.count("wallet.ops", "key")
+            # account descriptor wallet and descriptor-text wallet
+            w = {"kind": "account", "xkey": xkey, "path": path, "fp": bip32.fingerprint(xprv).hex(), "last": last,
+                 "ops": _ops_for(rng, last, [])}
+            ctx.check("wallet.ops", w, key="wallet.ops.descriptor")
+            ctx.check("wallet.address", dict(w, ask=[(0, 0), (1, last)]), key="wallet.address.network")
+            ctx.check("wallet.address", {"kind": "bip32", "xkey": xkey, "path": path, "script_type": t1,
+                                         "ask": [(0, 0), (1, last)]}, key="wallet.address.network")
+            ctx.count("wallet.ops", "descriptor(account)")
+        for f in ["pkh", "wpkh", "sh-wpkh", "tr", "wsh-multi", "sh-multi", "sh-wsh-multi", "rawtr", "pk"]:
+            k = g.xkey(allow_hardened=False, canonical=True, ranged=False)
+            k2 = g.xkey(allow_hardened=False, canonical=True, ranged=False)
+
+            def mp(kk):
+                return KeySpec("x", kk.text + "/<0;1>/*", xpub=kk.xpub, path=list(kk.path), wildcard=0)
+            a_, b_ = mp(k), mp(k2)
+            text = {"pkh": f"pkh({a_.text})", "wpkh": f"wpkh({a_.text})", "sh-wpkh": f"sh(wpkh({a_.text}))",
+                    "tr": f"tr({a_.text})", "wsh-multi": f"wsh(multi(1,{a_.text},{b_.text}))",
+                    "sh-multi": f"sh(sortedmulti(2,{a_.text},{b_.text}))",
+                    "sh-wsh-multi": f"sh(wsh(multi(2,{a_.text},{b_.text})))", "rawtr": f"rawtr({a_.text})",
+                    "pk": f"pk({a_.text})"}[f]
+            last = 2
+            w = {"kind": "desc", "text": text, "network": net, "prv": None, "last": last, "ops": _ops_for(rng, last, [])}
+            if f != "pk":
+                ctx.check("wallet.ops", w, key="wallet.ops.descriptor")
+            else:   # no address: script_pub_key / position_of only
+                ctx.check("wallet.ops", dict(w, ops=[("spk", 0, 1), ("pos", 1, 2), ("spk", 1, 0), ("pos", 0, 1)]),
+                          key="wallet.ops.descriptor")
+            ctx.check("wallet.address", dict(w, ask=[(0, 0), (1, last)]), key="wallet.address.network")
+            ctx.count("wallet.ops", f"descriptor:{f}")
+        # script-template wallets: every embedding x every order x both shapes
+        for stype in ["p2sh", "p2wsh", "p2sh-p2wsh"]:
+            for order in ["none", "account", "derived"]:
+                accts = []
+                for _ in range(2):
+                    a = bip32.derive(rng.choice(g.roots)[0], f"m/48h/{coin}h/{rng.randrange(50)}h")
+                    accts.append(rng.choice([a, bip32.xpub_from_xprv(a)]))
+                shape = rng.choice(["plain", "timelock"])
+                tmpl = [{"k": rng.randint(1, 2), "keys": accts}] if shape == "plain" else \
+                    ["OP_IF", {"k": 2, "keys": accts}, "OP_ELSE", "hex:9000", "OP_CHECKSEQUENCEVERIFY", "OP_DROP",
+                     {"k": 1, "keys": accts[:1]}, "OP_ENDIF"]
+                last = 2
+                w = {"kind": "script", "template": tmpl, "script_type": stype, "order": order, "network": net,
+                     "last": last, "ops": _ops_for(rng, last, [])}
+                ctx.check("wallet.ops", w, key="wallet.ops.script")
+                ctx.check("wallet.address", dict(w, ask=[(0, 0), (1, last)]), key="wallet.address.network")
+                ctx.count("wallet.ops", f"script:{stype}")
+                wal = _build_wallet(w)
+                for b, i in [(0, 0), (1, last)]:
+                    sc = wal.script_pub_key(b, i).script
+                    _ctx_line(wlines, f"addr {wal.network} {hx(sc)}", lambda b=b, i=i: [T(wal.address(b, i))])
 
 
 def _ctx_line(lines, ln, fn):
@@ -1890,6 +2174,7 @@ def wallet_batch(ctx):
         for q in (own, common.rand_bytes(rng, 22)):
             _ctx_line(wlines, f"w.desc.pos {at} {prv_tok} mainnet {last} {hx(q)} " + ";".join(T(t_) for t_ in ctexts),
                       lambda q=q: wal.position_of(q, last))
+    wallet_ops_batch(ctx, wlines)
     stream(ctx, "wallet.model", wlines)
 
     # loose keys: a KeyWallet hands out one address per key and remembers it
@@ -1901,7 +2186,8 @@ def wallet_batch(ctx):
             (addr,) = kw.addresses
             spec = {"p2pkh": ("pkh", k), "p2wpkh-p2sh": ("sh", ("wpkh", k)), "p2wpkh": ("wpkh", k),
                     "p2tr": ("tr", k, None)}[stype]
-            ok = ScriptPubKey.from_address(addr).script.hex() == _expected(spec, 0, net)[0] and addr in kw
+            ok = ScriptPubKey.from_address(addr).script.hex() == _expected(spec, 0, net)[0] and addr in kw and \
+                _addr_network_ok(addr, bytes.fromhex(_expected(spec, 0, net)[0]), net)[0]
             ctx.oracle("wallet.key", ok, f"KeyWallet {stype} address {addr}",
                        witness={"oracle": "wallet.key", "witness": {"sec": k.sec.hex(), "type": stype, "network": net}})
             ctx.count("wallet", "key")
